@@ -764,6 +764,7 @@ def contract_lines(ctx, tasks, results):
             c['args'].update(c.get('kw', {}))
             enc = encode_inputs(k, c['args'])
             if enc is None:
+                ctx.count('contract:skipped-unencodable')
                 continue
             line = 'c17.sat %s %s' % (k['name'], enc)
             if line in seen:
@@ -772,6 +773,33 @@ def contract_lines(ctx, tasks, results):
             lines.append(line)
             meta.append((t, c))
     answers = ctx.lean(lines) if lines else []
+    # the translated kernels are *run* (step-bounded interpreter, pseudo-random oracles) on arguments the real kernels
+    # were entered with: no read of an unassigned variable, no out-of-bounds access at a kinded site (review M4)
+    waivers = load_waivers()
+    report = _STATE.get('kind_report', {})
+    per, ex_lines, ex_kern = {}, [], []
+    for (t, c), ln in zip(meta, lines):
+        kn = c['kernel']
+        k = desc[kn]
+        if per.get(kn, 0) >= 6 or not all('int' in c['args'].get(pn, {}) for pn in k.get('int_params', [])):
+            continue
+        per[kn] = per.get(kn, 0) + 1
+        for seed in (0, 1):
+            ex_lines.append('c17.exec ' + ln[len('c17.sat '):] + ' 3000 %d' % seed)
+            ex_kern.append(kn)
+    for kn, ln, e in zip(ex_kern, ex_lines, ctx.lean(ex_lines) if ex_lines else []):
+        ctx.count('ir_exec_recorded:' + e.split(' ')[0])
+        if e.startswith('uninit'):
+            if e.split(' ')[1] not in waivers.get(kn, {}).get('unassigned', []):
+                ctx.broken('ir_exec:' + kn, {'what': 'the IR run on recorded arguments reads an unassigned variable',
+                                             'answer': e, 'line': ln[:600]},
+                           sig={'obligation': 'ir_exec', 'kernel': kn, 'answer': 'uninit'})
+        elif e.startswith('oob'):
+            site = desc[kn]['sites'][int(e.split(' ')[1])]['text']
+            if site not in {w['site'] for w in report.get(kn, {}).get('waived', [])}:
+                raise ToolFailure('IR run out of bounds at a kinded site (contradicts kinds_sound): %s %s' % (kn, e))
+        elif e.split(' ')[0] not in ('ok', 'done', 'out'):
+            raise ToolFailure('c17.exec -> %r for %r' % (e, ln[:200]))
     for (t, c), line, ans in zip(meta, lines, answers):
         ctx.case(('sat', line), True, sample={'request': line[:300], 'model': ans, 'impl': 'arguments of ' + c['kernel']})
         ctx.count('contract:' + c['kernel'])
@@ -855,6 +883,59 @@ def stream(ctx, flavour, quick, monitor):
     return tasks, results
 
 
+SCALING_ALGOS = KERNEL_ALGOS + ['Propagation', 'PageRank', 'Katz', 'Diffusion', 'Dirichlet', 'get_distances', 'is_bipartite',
+                                 'get_connected_components', 'Closeness', 'DiffusionClassifier', 'PageRankClassifier',
+                                 'NNClassifier', 'HITS', 'get_shortest_path']
+SCALING_SIZES = (500, 1000, 2000)
+SCALING_ABS_S = 20.0      # CPU seconds allowed on the largest size (sparse graph, average degree 4)
+SCALING_RATIO = 8.0       # allowed t(2n)/t(n), applied only when t(2n) is above SCALING_FLOOR_S
+SCALING_FLOOR_S = 1.0
+
+
+def sparse_connected(rng, n):
+    """ring + random chords: connected, about 2n edges (average degree 4), unit weights"""
+    es = set((i, (i + 1) % n) for i in range(n))
+    while len(es) < 2 * n:
+        i, j = rng.randrange(n), rng.randrange(n)
+        if i != j and (j, i) not in es:
+            es.add((i, j))
+    es = sorted(es)
+    return graphs.csr_from_edges(n, sorted(es + [(j, i) for (i, j) in es]))
+
+
+def scaling_probe(ctx, algos=None):
+    """'within time proportionate to the input' measured beyond toy sizes (review M5): CPU time of every algorithm that
+    enters a kernel on sparse connected graphs of 500, 1000, 2000 nodes; reported with its own kind 'scaling'."""
+    rng = ctx.rng
+    gs = {n: gdict('sparse%d' % n, sparse_connected(rng, n)) for n in SCALING_SIZES}
+    tasks = []
+    for algo in (algos or SCALING_ALGOS):
+        for n in SCALING_SIZES:
+            tasks.append({'id': len(tasks), 'algo': algo, 'graph': gs[n], 'extra': {}, 'flavour': 'plain'})
+    res = run_pool(ctx.overlay_root, tasks, 90, 6, tag='z')
+    judge(ctx, tasks, res, 'plain')
+    table = {}
+    for t in tasks:
+        r = res[t['id']]
+        table.setdefault(t['algo'], {})[t['graph']['n']] = r.get('cpu') if r.get('status') in ('ok', 'exc') else None
+    ctx.extra['scaling_cpu_s'] = table
+    for algo, row in table.items():
+        ts = [row.get(n) for n in SCALING_SIZES]
+        if any(x is None for x in ts):
+            continue            # timeout / crash: already judged
+        why = None
+        if ts[-1] > SCALING_ABS_S:
+            why = 'cpu %.1f s on %d nodes' % (ts[-1], SCALING_SIZES[-1])
+        for a, b, n in zip(ts, ts[1:], SCALING_SIZES[1:]):
+            if b > SCALING_FLOOR_S and a > 0 and b / a > SCALING_RATIO:
+                why = 'cpu time x%.1f from %d to %d nodes (%.2f s -> %.2f s)' % (b / a, n // 2, n, a, b)
+        ctx.count('scaling:' + ('ok' if why is None else 'SUPERLINEAR'))
+        if why is not None:
+            t = [x for x in tasks if x['algo'] == algo][-1]
+            ctx.spec_fail(task_sig(t, 'scaling'), {'task': {k: t[k] for k in ('algo', 'graph', 'extra', 'flavour')}},
+                          {'what': 'time not proportionate to the input', 'why': why, 'cpu_s': row})
+
+
 def run_corpus(ctx):
     p = os.path.join(VERIF, 'corpus', 'C17.jsonl')
     if not os.path.exists(p):
@@ -867,7 +948,7 @@ def run_corpus(ctx):
             t['id'] = len(tasks)
             tasks.append(t)
     for flavour in ('plain', 'checked'):
-        ts = [dict(t, flavour=flavour) for t in tasks if t.get('flavour', flavour) == flavour or True]
+        ts = [dict(t, flavour=flavour) for t in tasks]
         if not ts:
             continue
         root = ctx.overlay_root if flavour == 'plain' else overlay.sync('checked')[0]
@@ -899,6 +980,7 @@ def run(ctx):
     timed('kinds', kind_obligations, ctx)
     timed('corpus', run_corpus, ctx)
     timed('kernel_models', kernel_model_cases, ctx)
+    timed('scaling', scaling_probe, ctx)
     timed('stream_plain', stream, ctx, 'plain', ctx.quick, monitor=True)
     if (not ctx.quick) or checked_is_cheap():
         timed('stream_checked', stream, ctx, 'checked', ctx.quick, monitor=False)
@@ -941,13 +1023,16 @@ def core_cases(ctx, graphs_):
     return cases
 
 
-def vote_cases(ctx, graphs_):
+def vote_cases(ctx, graphs_, fixed=None):
     """vote_update: the checked model (SkNet/Model/KernelsVote.lean, theorem inbounds_vote) against the kernel."""
     rng = ctx.rng
     tasks = []
     for g in graphs_:
         n = g['n']
         if n != g['m'] or n == 0:
+            continue
+        if fixed is not None:
+            tasks.append({'id': len(tasks), 'algo': 'vote_update_kernel', 'graph': g, 'extra': fixed, 'flavour': 'plain'})
             continue
         g2 = dict(g, dtype='float', data=[float(rng.choice([1, 1, 2, 3])) for _ in g['indices']])
         for _ in range(2):
@@ -1056,6 +1141,18 @@ def replay(ctx, payload):
     if not t:
         # a broken obligation: re-evaluate all obligations on the current tree
         kind_obligations(ctx)
+        return
+    sig = payload.get('sig') or {}
+    if sig.get('kind') == 'scaling':
+        scaling_probe(ctx, algos=[t['algo']])
+        return
+    if sig.get('kind') == 'model':
+        # a disagreement between a checked hand model and the kernel: compare again on the recorded input
+        g = t['graph']
+        if t['algo'] == 'get_core_decomposition':
+            _evaluate(ctx, core_cases(ctx, [g]))
+        else:
+            _evaluate(ctx, vote_cases(ctx, [g], fixed=t.get('extra')))
         return
     t = dict(t, id=0)
     flavour = t.get('flavour', 'plain')
